@@ -3,7 +3,9 @@
 package checks16
 
 import (
+	"bytes"
 	"fmt"
+	"net/netip"
 	"os"
 	"testing"
 	"unsafe"
@@ -197,6 +199,31 @@ func runC16(c *wk.Ctx) {
 					continue
 				}
 				c.Obs("forwarded_copy_pairs_measured", 1)
+			}
+		}
+		// a source that is untracked by rule stays untracked whoever sends from it: the same packet from a second station,
+		// alternating with the first, is a steady state as well (two devices doing duplicate address detection from "::")
+		nobody := ref.SrcIP.IsValid() && (ref.SrcIP.IsUnspecified() || ref.SrcIP.IsMulticast() || ref.SrcIP.IsLoopback() || ref.SrcIP == netip.AddrFrom4([4]byte{255, 255, 255, 255}))
+		if nobody && frame.Host != nil {
+			c.Viol("alloc:untracked-source:host-created", fmt.Sprintf("a frame from %x with the source address %v (nobody's address) got a host entry", b[6:12], ref.SrcIP), cs())
+			continue
+		}
+		if (frame.Host == nil || nobody) && f.SrcKind != "own" && f.SrcKind != "router" && (ref.OffIP4 != 0 || ref.OffIP6 != 0) && b[6]&1 == 0 && len(b)*2 <= len(buf) {
+			other := buf[len(b) : 2*len(b)]
+			copy(other, b)
+			copy(other[6:12], []byte{0x02, 0xab, 0xcd, 0, 0, byte(i)})
+			if !bytes.Equal(other[6:12], mon.DefaultNIC().HostMAC) {
+				if f2, err := s.Parse(other); err == nil {
+					if f2.Host != nil {
+						c.Viol("alloc:untracked-source:host-created", fmt.Sprintf("the source %v is untracked by rule for %x but got a host entry when %x sent from it", ref.SrcIP, b[6:12], other[6:12]), cs())
+						continue
+					}
+					if a2 := testing.AllocsPerRun(50, func() { s.Parse(b); s.Parse(other) }); a2 > 0 {
+						c.Viol(fmt.Sprintf("alloc:untracked-source:%s", frame.PayloadID), fmt.Sprintf("two stations sending from the untracked source %v in turn: %.2f allocations per pair (%s)", ref.SrcIP, a2, runName), cs())
+						continue
+					}
+					c.Obs("untracked_source_pairs_measured", 1)
+				}
 			}
 		}
 		c.Class(fmt.Sprintf("%s|%s|%s|%s", frame.PayloadID, f.L3, f.SrcKind, srcState))
